@@ -5,6 +5,7 @@ from pyvc.logic import Node, Str, null, none_s, text, is_msg, is_int, is_dt, bor
 from pyvc.values import *
 from pyvc.contracts import contract, Contract, Case, LoopSpec
 from .common import *
+from pyvc.state import State
 from .merge_story import list_same
 
 
@@ -72,8 +73,8 @@ def ro_content_shape(W, H, base, name):
          forall_nodes(1, lambda s: Imp(A(H.mem(base, s), H.tag(s) == lit('story')), timing_ok(W, H, s)),
                       patterns=lambda s: [H.mem(base, s)])),
         ('%s.roEdStart_parseable' % name,
-         Imp(A(H.find(base, lit('roEdStart')) != null, text(H.find(base, lit('roEdStart'))) != none_s),
-             is_dt(text(H.find(base, lit('roEdStart')))))),
+         forall_nodes(1, lambda x: Imp(A(H.mem(base, x), H.tag(x) == lit('roEdStart'), text(x) != none_s), is_dt(text(x))),
+                      patterns=lambda x: [H.mem(base, x)])),
     ]
 
 
@@ -103,4 +104,180 @@ class RunningOrderReplaceMerge(MergeContract):
                         text(H1.find(H1.find(root, lit('roCreate')), lit('roID'))) == text(H0.find(V0.base, lit('roID'))))))
         out.append(('C07.no_spurious_completion', H1.find(root, lit('mosromgrmeta')) == H0.find(root, lit('mosromgrmeta'))))
         out.append(('C06.no_warning', z3.BoolVal(ex.st.warns == [])))
+        return out
+
+
+# ------------------------------------------------------------------ roMetadataReplace
+MEM = 'mosExternalMetadata'
+
+
+def key_match(W, H, child, source):
+    """child is what the carried element source replaces: same tag and, for mosExternalMetadata, same mosSchema"""
+    lit = W.lit
+    cs, ss = H.find(child, lit('mosSchema')), H.find(source, lit('mosSchema'))
+    return A(H.tag(child) == H.tag(source),
+             z3.Or(H.tag(source) != lit(MEM), A(cs != null, ss != null, text(cs) == text(ss))))
+
+
+@contract('mosromgr.mostypes.MetaDataReplace._find_target')
+class FindTarget(Contract):
+    props = ('C03', 'C04')
+
+    def entry(self, E):
+        W = E.W
+        st = State(L.Heap(0, 0), z3.IntVal(0))
+        me = SObj(E.repo.cls('MetaDataReplace'), st.new_obj(None))
+        st.objs[me.oid] = {'_xml': SNode(W.fresh('mroot', Node)), '_base_tag': NONE}
+        return st, {'self': me, 'parent': SNode(W.fresh('parent', Node)), 'source': SNode(W.fresh('source', Node))}
+
+    def requires(self, cx):
+        return [('parent_not_none', cx.node('parent') != null), ('source_not_none', cx.node('source') != null)]
+
+    def cases(self, cx):
+        from pyvc.contracts import fresh_node
+        P, src, H = cx.node('parent'), cx.node('source'), cx.H
+        rv = fresh_node(cx.W, 'target')
+        r = rv.t
+        km = lambda y: key_match(cx.W, H, y, src)
+        found = A(H.mem(P, r), km(r), forall_nodes(1, lambda y: Imp(A(H.mem(P, y), H.pos(P, y) < H.pos(P, r)), z3.Not(km(y))),
+                                                   patterns=lambda y: [H.mem(P, y)]))
+        notfound = forall_nodes(1, lambda y: Imp(H.mem(P, y), z3.Not(km(y))), patterns=lambda y: [H.mem(P, y)])
+        return [Case('found', ret=STuple([rv, SInt(H.pos(P, r))]), assume=[found]),
+                Case('notfound', ret=STuple([NONE, NONE]), assume=[notfound])]
+
+    def loop(self, ordinal):
+        if ordinal == 0:
+            return FindTargetLoop()
+
+
+class FindTargetLoop(LoopSpec):
+    def invariant(self, cx, lp):
+        P, src, H = cx.node('parent'), cx.node('source'), cx.H
+        return [('no_match_before_k',
+                 forall_nodes(1, lambda y: Imp(A(H.mem(P, y), H.pos(P, y) < lp.k), z3.Not(key_match(cx.W, H, y, src))),
+                              patterns=lambda y: [H.mem(P, y)]))]
+
+
+class MetaLoop(LoopSpec):
+    writes_heap = True
+    writes_tags = True
+
+    def __init__(self, owner):
+        self.o = owner
+
+    def ghost_vars(self, cx):
+        return {'rem': z3.ArraySort(Node, L.I)}
+
+    def ghost_init(self, cx, lp):
+        return {'rem': z3.K(Node, z3.IntVal(-1))}
+
+    def invariant(self, cx, lp):
+        o = self.o
+        H0, c0 = lp.entry.heap, lp.entry.clock
+        H, clk, k = lp.st.heap, lp.st.clock, lp.k
+        W, lit = cx.W, cx.W.lit
+        P, mb = o.V0(cx).base, o.mb(cx)
+        car = lambda j: H0.at(mb, j)
+        cpy = lambda j: cp(c0 + j + 1, car(j))
+        rem = lambda z: z3.Select(lp.st.ghost['rem'], z)
+        j = z3.Int('j!m')
+        q, z = z3.Consts('q!fr z!fr', Node)
+        t = z3.Const('t!fr', Str)
+        kk = z3.Int('k!fr')
+        out = [('clock', clk == c0 + k)]
+        out.append(('only_old_and_copies',
+                    forall_nodes(1, lambda z: Imp(H.mem(P, z), z3.Or(A(H0.mem(P, z), born(z) <= c0),
+                                                                     A(c0 < born(z), born(z) <= c0 + k, z == cpy(born(z) - c0 - 1)))),
+                                 patterns=lambda z: [H.mem(P, z)])))
+        out.append(('C03.only_matching_metadata_removed',
+                    forall_nodes(1, lambda z: Imp(A(H0.mem(P, z), z3.Not(H.mem(P, z))),
+                                                  A(0 <= rem(z), rem(z) < k, key_match(W, H0, z, car(rem(z))))),
+                                 patterns=lambda z: [H.mem(P, z), H0.mem(P, z)])))
+        out.append(('survivors_keep_order',
+                    forall_nodes(2, lambda z, w: Imp(A(H0.mem(P, z), H0.mem(P, w), H.mem(P, z), H.mem(P, w)),
+                                                     (H.pos(P, z) < H.pos(P, w)) == (H0.pos(P, z) < H0.pos(P, w))),
+                                 patterns=lambda z, w: [z3.MultiPattern(H.pos(P, z), H.pos(P, w))])))
+        out.append(('C04.carried_elements_present',
+                    z3.ForAll([j], Imp(A(0 <= j, j < k), H.mem(P, cpy(j))), patterns=[car(j)])))
+        out.append(('roID_present', H.find(P, lit('roID')) != null))
+        pre = lambda qq: A(qq != P, born(qq) <= c0)
+        out.append(('frame.lists', A(
+            z3.ForAll([q, z], Imp(pre(q), A(H.mem(q, z) == H0.mem(q, z), H.pos(q, z) == H0.pos(q, z))), patterns=[H.mem(q, z), H.pos(q, z)]),
+            z3.ForAll([q], Imp(pre(q), H.len(q) == H0.len(q)), patterns=[H.len(q)]),
+            z3.ForAll([q, kk], Imp(pre(q), H.at(q, kk) == H0.at(q, kk)), patterns=[H.at(q, kk)]))))
+        out.append(('frame.tags', z3.ForAll([q], Imp(born(q) <= c0, H.tag(q) == H0.tag(q)), patterns=[H.tag(q)])))
+        out.append(('frame.find', A(
+            z3.ForAll([q, t], Imp(pre(q), H.find(q, t) == H0.find(q, t)), patterns=[H.find(q, t)]),
+            z3.ForAll([q, t], Imp(pre(q), H.falen(q, t) == H0.falen(q, t)), patterns=[H.falen(q, t)]),
+            z3.ForAll([q, t, kk], Imp(pre(q), H.fanode(q, t, kk) == H0.fanode(q, t, kk)), patterns=[H.fanode(q, t, kk)]),
+            z3.ForAll([q, t, z], Imp(pre(q), H.faidx(q, t, z) == H0.faidx(q, t, z)), patterns=[H.faidx(q, t, z)]))))
+        isc = lambda qq: A(c0 < born(qq), born(qq) <= clk, is_msg(orig(qq)), qq == cp(born(qq), orig(qq)))
+        out.append(('copies_mirror', A(
+            z3.ForAll([q], Imp(isc(q), A(H.tag(q) == H0.tag(orig(q)), H.len(q) == H0.len(orig(q)))), patterns=[H.tag(q), H.len(q)]),
+            z3.ForAll([q, t], Imp(isc(q), H.find(q, t) == cp(born(q), H0.find(orig(q), t))), patterns=[H.find(q, t)]),
+            z3.ForAll([q, z], Imp(isc(q), A(H.mem(q, z) == A(H0.mem(orig(q), orig(z)), z == cp(born(q), orig(z))),
+                                            H.pos(q, z) == H0.pos(orig(q), orig(z)))), patterns=[H.mem(q, z), H.pos(q, z)]))))
+        out.append(('ownership', z3.ForAll([q, z], Imp(H.mem(q, z), is_msg(q) == is_msg(z)), patterns=[H.mem(q, z)])))
+        return out
+
+    def ghost_update(self, cx, lp):
+        new = [w for w in lp.st.writes[len(lp.head.writes):] if w[0] == 'kids' and w[3][0] == 'remove']
+        r = lp.st.ghost['rem']
+        for w in new:
+            r = z3.Store(r, w[3][1], lp.k)
+        return {'rem': r}
+
+
+@contract('mosromgr.mostypes.MetaDataReplace.merge')
+class MetaDataReplaceMerge(MergeContract):
+    props = ('C03', 'C04', 'C05', 'C06', 'C07', 'C12', 'C13', 'C14')
+    cls_name = 'MetaDataReplace'
+    base_tag_name = 'roMetadataReplace'
+    frame = 'base'
+
+    def shape(self, cx):
+        H, W, lit = cx.H, cx.W, cx.W.lit
+        mb = self.mb(cx)
+        return [
+            ('Shape.carries_metadata_not_stories',
+             forall_nodes(1, lambda c: Imp(H.mem(mb, c), H.tag(c) != lit('story')), patterns=lambda c: [H.mem(mb, c)])),
+            ('Shape.carried_elements_have_distinct_keys',
+             forall_nodes(2, lambda c, d: Imp(A(H.mem(mb, c), H.mem(mb, d), c != d), z3.Not(key_match(W, H, c, d))),
+                          patterns=lambda c, d: [z3.MultiPattern(H.mem(mb, c), H.mem(mb, d))])),
+            ('Shape.carried_roEdStart_parseable',
+             forall_nodes(1, lambda c: Imp(A(H.mem(mb, c), H.tag(c) == lit('roEdStart'), text(c) != none_s), is_dt(text(c))),
+                          patterns=lambda c: [H.mem(mb, c)])),
+        ]
+
+    def loop(self, ordinal):
+        if ordinal == 0:
+            return MetaLoop(self)
+
+    def ensures(self, cx, ex):
+        H0, H1, W, lit = cx.H, ex.H, cx.W, cx.W.lit
+        V0 = self.V0(cx)
+        P, mb = V0.base, self.mb(cx)
+        c0 = cx.clock
+        n = H0.len(mb)
+        out = self.std_normal(cx, ex)
+        lp = ex.loop(0)
+        if lp is None or getattr(lp, 'broke', False):
+            out.append(('C04.every_carried_element_is_processed', z3.BoolVal(False)))
+            return out
+        j = z3.Int('j!e')
+        cpy = lambda jj: cp(c0 + jj + 1, H0.at(mb, jj))
+        out.append(('C03.stories_are_untouched_and_keep_their_order',
+                    A(forall_nodes(1, lambda s: Imp(V0.is_story(s), A(H1.mem(P, s), list_same(H0, H1, s)))),
+                      forall_nodes(2, lambda s, t: Imp(A(V0.is_story(s), V0.is_story(t)),
+                                                       (H1.pos(P, s) < H1.pos(P, t)) == (H0.pos(P, s) < H0.pos(P, t)))))))
+        out.append(('C03.only_metadata_with_the_same_tag_and_schema_is_replaced',
+                    forall_nodes(1, lambda z: Imp(A(H0.mem(P, z), z3.Not(H1.mem(P, z))),
+                                                  z3.Exists([j], A(0 <= j, j < n, key_match(W, H0, z, H0.at(mb, j))))))))
+        out.append(('C03.metadata_not_carried_keeps_its_order',
+                    forall_nodes(2, lambda z, w: Imp(A(H0.mem(P, z), H0.mem(P, w), H1.mem(P, z), H1.mem(P, w)),
+                                                     (H1.pos(P, z) < H1.pos(P, w)) == (H0.pos(P, z) < H0.pos(P, w))))))
+        out.append(('C04.every_carried_element_is_present_as_a_copy',
+                    z3.ForAll([j], Imp(A(0 <= j, j < n), A(H1.mem(P, cpy(j)), H1.tag(cpy(j)) == H0.tag(H0.at(mb, j)))))))
+        out.append(('C07.no_spurious_completion', H1.find(V0.root, lit('mosromgrmeta')) == H0.find(V0.root, lit('mosromgrmeta'))))
+        out.append(('C06.no_warning', z3.BoolVal([w for w in ex.st.warns if not w.startswith('*')] == [])))
         return out
